@@ -397,3 +397,40 @@ class Report:
             print("VIOLATION property=%s replay=%s%s" % (self.prop, path, suffix))
         sys.stdout.flush()
         return 1 if self.violations else 0
+
+
+# ------------------------------------------------------------------ generic replay
+def _find_cmds(obj, out):
+    if isinstance(obj, dict):
+        if isinstance(obj.get("cmd"), str):
+            out.append(obj)
+            return
+        for v in obj.values():
+            _find_cmds(v, out)
+    elif isinstance(obj, list):
+        for v in obj:
+            _find_cmds(v, out)
+
+
+def replay_generic(rep, path):
+    """re-run every harness command recorded in a replay file against the CURRENT /repo and report
+       whether the recorded implementation behaviour reproduces (VIOLATION again) or not"""
+    payload = json.load(open(path))
+    cmds = []
+    _find_cmds(payload, cmds)
+    print("replay of %s: kind=%r, %d recorded harness command(s)" % (path, payload.get("kind"), len(cmds)))
+    if not cmds:
+        print(json.dumps(payload, indent=1, default=repr)[:6000])
+        return
+    harness = build_harness()
+    res = run_rust(harness, cmds)
+    recorded = payload.get("rust")
+    for c, r in zip(cmds, res):
+        print("COMMAND " + json.dumps(c)[:3000])
+        print("NOW     " + json.dumps(r)[:3000])
+    if recorded is not None:
+        print("RECORDED " + json.dumps(recorded)[:3000])
+        same = any(json.dumps(r, sort_keys=True) == json.dumps(recorded, sort_keys=True) for r in res)
+        print("the recorded failing behaviour %s on the current tree" % ("REPRODUCES" if same else "does NOT reproduce"))
+        if same:
+            rep.violation(payload)
